@@ -65,7 +65,8 @@ Proof. unfold par_okb. destruct (nth i (e_params en) (Leaf KParam "" 0 true)); t
 
 Lemma text_okb_s_sound en props s : text_okb_s en props s = true -> text_ok_s en props s.
 Proof.
-  destruct s as [t e|f args|f args|fam pid o v|tk ti tv|an ao av]; cbn [text_okb_s text_ok_s]; intros H.
+  destruct s as [t e|f args|f args|fam pid o v|tk ti tv|an ao av|mp mi mm mv]; cbn [text_okb_s text_ok_s]; intros H.
+  7:{ apply andb_true_iff in H. destruct H as [Hk Hv]. split; apply text_okb_sound; assumption. }
   6:{ apply andb_true_iff in H. destruct H as [Hk Hv]. split; apply text_okb_sound; assumption. }
   5:{ apply andb_true_iff in H. destruct H as [H Hv]. apply andb_true_iff in H. destruct H as [Hk Hf].
       split; [apply text_okb_sound; exact Hk|]. split; [apply negb_true_iff in Hf; exact Hf | apply text_okb_sound; exact Hv]. }
@@ -87,7 +88,8 @@ Proof. unfold par_okb. destruct (nth i (e_params en) (Leaf KParam "" 0 true)); t
 
 Lemma js_okb_s_sound en props s : js_okb_s en props s = true -> js_ok_s en props s.
 Proof.
-  destruct s as [t e|f args|f args|fam pid o v|tk ti tv|an ao av]; cbn [js_okb_s js_ok_s]; intros H.
+  destruct s as [t e|f args|f args|fam pid o v|tk ti tv|an ao av|mp mi mm mv]; cbn [js_okb_s js_ok_s]; intros H.
+  7:{ apply andb_true_iff in H. destruct H as [Hk Hv]. split; apply js_okb_sound; assumption. }
   6:{ discriminate H. }
   5:{ apply andb_true_iff in H. destruct H as [Hk Hv]. split; apply js_okb_sound; assumption. }
   - apply andb_true_iff in H. destruct H as [He Ht]. split; [apply js_okb_sound; exact He|].
